@@ -30,7 +30,12 @@ func vpC03JSONString(s string) string {
 // bytes through an independent JSON string encoder), optionally nested one level or wrapped in
 // an array: ARGS_POST holds exactly the flattened members (json.<path>), byte-exact, decoded
 // once - or something says the body could not be represented.
-func VpC03JSON() {
+func VpC03JSON() { vpC03JSON() }
+
+// VpC03JSONDeep: the same check with fewer members and longer values (thorough tier only).
+func VpC03JSONDeep() { vpC03JSON() }
+
+func vpC03JSON() {
 	names := []string{"a", "b", "a.b", "0"}
 	p := 1 + vp.Choice("nmembers", vp.Param("P", 2))
 	shape := vp.Choice("shape", 3) // 0 flat object, 1 nested under "o", 2 inside an array
